@@ -541,7 +541,9 @@ class C03(Prop):
         run_list_op(pg, lst, op)
       except (TypeError, ValueError, KeyError, IndexError) as e:
         err = type(e).__name__
+      n0 = len(why)
       m['steps'].append({'err': err, 'items': tv.from_py(lst)[1], 'conforms': conforms(lst)})
+      out.setdefault('why_steps', []).append(why[n0:])
     out['model'] = m
     out['typed'] = lst.value_spec is not None
     return out
@@ -604,8 +606,10 @@ class C03(Prop):
       out.setdefault('attached', []).append(att)
       # derived state is queried between the steps, as a user program would (and memoised by pyglove)
       out.setdefault('derived', []).append([bool(target.is_partial), len(target.sym_missing())])
+      n0 = len(why)
       m['steps'].append({'err': err, 'items': content(target), 'conforms': conforms(target, True),
                          'complete': conforms(target, False)})
+      out.setdefault('why_steps', []).append(why[n0:])
       typed.append(is_object or target.value_spec is not None)
     out['model'] = m
     out['typed'] = all(typed) if typed else True
@@ -624,70 +628,99 @@ class C03(Prop):
   # -- the property itself --------------------------------------------------------------------
   _known = None
 
-  def oracle(self, case, out):
-    """First failure; one that is not a listed finding takes precedence over listed ones."""
-    f = self.oracle_first(case, out)
-    return f
+  def known_signatures(self):
+    if C03._known is None:
+      from harness.common import framework
+      sigs = set()
+      for e in framework.load_findings(self.id):
+        if e.get('status') == 'known':
+          sigs.update(e.get('signature', '').split('|'))
+      C03._known = sigs
+    return C03._known
 
-  def oracle_first(self, case, out):
+  def oracle(self, case, out):
+    """All failing steps are collected; the first failure that is not a listed finding is reported
+    (a known defect early in a history cannot mask a new one later), else the first listed one."""
+    fails = []
+    self.oracle_all(case, out, fails)
+    if not fails:
+      return None
+    known = self.known_signatures()
+    for f in fails:
+      if f['signature'] not in known:
+        return f
+    return fails[0]
+
+  def oracle_all(self, case, out, fails):
     case = self.normalise(case)
     m = out['model']
     kind = case['kind']
+
+    def add(sig, what):
+      if len(fails) < 24 and sig not in [f['signature'] for f in fails]:
+        fails.append({'signature': sig, 'what': what})
+
     if isinstance(m['construct'], str):
       if m['construct'] not in SCHEMA_ERRS:
-        return {'signature': 'construct-error-class:' + m['construct'], 'what': 'constructor raised ' + m['construct']}
-      return None
+        add('construct-error-class:' + m['construct'], 'constructor raised ' + m['construct'])
+      return
     st = out['state']
     if not m['conforms']:
-      return {'signature': 'construct-nonconforming:' + kind,
-              'what': 'constructed %s %s violates its spec %s' % (kind, json.dumps(m['construct']), json.dumps(st))}
+      add('construct-nonconforming:' + kind,
+          'constructed %s %s violates its spec %s' % (kind, json.dumps(m['construct']), json.dumps(st)))
     if not out.get('typed', True):
-      return {'signature': 'value-spec-lost:' + kind, 'what': 'the container is no longer bound to its value spec'}
+      add('value-spec-lost:' + kind, 'the container is no longer bound to its value spec')
     partial_allowed = kind != 'list' and case['partial']
     if kind != 'list' and not partial_allowed and not m['complete']:
-      return {'signature': 'construct-partial:' + kind, 'what': 'constructed without allow_partial but a required field is missing: %s' % json.dumps(m['construct'])}
+      add('construct-partial:' + kind, 'constructed without allow_partial but a required field is missing: %s' % json.dumps(m['construct']))
     prev = m['construct']
+    bad_before = not m['conforms']
     ops = case['ops'] if kind == 'list' else [o for o, _ in case['ops']]
     scopes = [None] * len(ops) if kind == 'list' else [s for _, s in case['ops']]
+    why_steps = out.get('why_steps') or [[]] * len(ops)
     for i, (op, scope, s) in enumerate(zip(ops, scopes, m['steps'])):
       if scope:
         partial_allowed = True
+      why = why_steps[i] if i < len(why_steps) else []
       if kind != 'list' and not out.get('attached', [True] * len(ops))[i]:
-        return {'signature': 'member-detached:%s:%s' % (kind, op[0]),
-                'what': 'after %s (%s) a symbolic member of the %s no longer has it as parent / its key as path' % (
-                    json.dumps(op), s['err'] or 'ok', kind)}
-      if not s['conforms'] and 'frozen-value-differs' in out.get('why', []):
-        return {'signature': 'frozen-value-differs:%s:%s' % (kind, op[0]),
-                'what': 'after %s a frozen member of the %s does not hold its frozen value: %s (spec %s)' % (
-                    json.dumps(op), kind, json.dumps(s['items']), json.dumps(st))}
-      if (not s['conforms'] or (kind != 'list' and not partial_allowed and not s['complete'])) and \
-          'nested-required-field-missing' in out.get('why', []):
-        return {'signature': 'nested-required-field-missing:%s:%s' % (kind, op[0]),
-                'what': 'after %s the %s (never made partial) holds a member with a missing required field at depth >= 2: %s' % (
-                    json.dumps(op), kind, json.dumps(s['items']))}
-      if not s['conforms']:
-        if kind == 'list':
-          mn, mx = st[2], st[3]
-          size_bad = len(s['items']) < mn or (mx is not None and len(s['items']) > mx)
-          sig = ('size-out-of-bounds:' if size_bad else 'member-rejected-by-spec:') + op[0]
+        add('member-detached:%s:%s' % (kind, op[0]),
+            'after %s (%s) a symbolic member of the %s no longer has it as parent / its key as path' % (
+                json.dumps(op), s['err'] or 'ok', kind))
+      incomplete = kind != 'list' and not partial_allowed and not s['complete']
+      bad = (not s['conforms']) or incomplete
+      # a violation is attributed to the step that introduces it (the state stays bad afterwards)
+      if bad and not bad_before:
+        if not s['conforms'] and 'frozen-value-differs' in why:
+          add('frozen-value-differs:%s:%s' % (kind, op[0]),
+              'after %s a frozen member of the %s does not hold its frozen value: %s (spec %s)' % (
+                  json.dumps(op), kind, json.dumps(s['items']), json.dumps(st)))
+        elif 'nested-required-field-missing' in why:
+          add('nested-required-field-missing:%s:%s' % (kind, op[0]),
+              'after %s the %s (never made partial) holds a member with a missing required field at depth >= 2: %s' % (
+                  json.dumps(op), kind, json.dumps(s['items'])))
+        elif not s['conforms']:
+          if kind == 'list':
+            mn, mx = st[2], st[3]
+            size_bad = len(s['items']) < mn or (mx is not None and len(s['items']) > mx)
+            sig = ('size-out-of-bounds:' if size_bad else 'member-rejected-by-spec:') + op[0]
+          else:
+            sig = 'member-rejected-by-spec:%s:%s' % (kind, op[0])
+            t = self.typed_cause(case, op, s)
+            if t:
+              sig = 'typed-container-trusted:' + t
+          add(sig, 'after %s the %s %s violates its spec %s' % (
+              json.dumps(op), kind, json.dumps(s['items']), json.dumps(st)))
         else:
-          sig = 'member-rejected-by-spec:%s:%s' % (kind, op[0])
-          t = self.typed_cause(case, op, s)
-          if t:
-            sig = 'typed-container-trusted:' + t
-        return {'signature': sig, 'what': 'after %s the %s %s violates its spec %s' % (
-            json.dumps(op), kind, json.dumps(s['items']), json.dumps(st))}
-      if kind != 'list' and not partial_allowed and not s['complete']:
-        return {'signature': 'required-field-missing:%s:%s' % (kind, op[0]),
-                'what': 'after %s (never partial) a required field is missing: %s' % (json.dumps(op), json.dumps(s['items']))}
+          add('required-field-missing:%s:%s' % (kind, op[0]),
+              'after %s (never partial) a required field is missing: %s' % (json.dumps(op), json.dumps(s['items'])))
+      bad_before = bad
       if s['err'] in SCHEMA_ERRS:
         batch = op[0] in ('extend', 'iadd', 'extend_iter', 'iadd_iter', 'imul', 'setslice', 'rebind', 'update', 'ior')
         if not batch and s['items'] != prev:
-          return {'signature': 'rejected-write-stored:%s:%s' % (kind, op[0]),
-                  'what': '%s raised %s but the %s changed from %s to %s' % (
-                      json.dumps(op), s['err'], kind, json.dumps(prev), json.dumps(s['items']))}
+          add('rejected-write-stored:%s:%s' % (kind, op[0]),
+              '%s raised %s but the %s changed from %s to %s' % (
+                  json.dumps(op), s['err'], kind, json.dumps(prev), json.dumps(s['items'])))
       prev = s['items']
-    return None
 
   def typed_cause(self, case, op, step):
     """If the violating member was written as an already typed container whose spec the field
